@@ -63,6 +63,8 @@ var deviants = []deviant{
 		func(q *Query, p Params) bool { return q.unwrapLabel() != "" && (q.RGroup == nil || !q.RGroup.By) }},
 	{"unwrap_missing_or_nonnumeric_counts_as_zero", func(r *Rules) { r.UnwrapInvalidAsZero = true },
 		func(q *Query, p Params) bool { return q.unwrapLabel() != "" }},
+	{"step_gt_range_value_more_than_one_step_early", func(r *Rules) { r.StepFixFirstBucket = true },
+		func(q *Query, p Params) bool { return p.StepMs > int64(q.RangeS)*1000 }},
 	{"shortcut_15s_range_not_multiple_of_15s", func(r *Rules) { r.Shortcut15sGrid = true },
 		func(q *Query, p Params) bool { return shortcutApplies(q) && q.RangeS%15 != 0 }},
 	{"line_filter_neg_regex_negation_lost", func(r *Rules) { r.NegRegexLineLost = true },
@@ -320,6 +322,12 @@ func (s *summary) record(c caseSpec, o *outcome) {
 
 func workerMain(thorough bool, shard, of, from int, deadline int64, journal string) {
 	debug.SetGCPercent(400)
+	if pf := os.Getenv("C08_WORKER_PROFILE"); pf != "" && shard == 0 {
+		if f, err := os.Create(pf); err == nil {
+			pprof.StartCPUProfile(f)
+			defer pprof.StopCPUProfile()
+		}
+	}
 	g := generate(thorough, func(i int) bool { return i >= from && i%of == shard }, false)
 	var jf *os.File
 	if journal != "" {
